@@ -41,6 +41,10 @@ func main() {
 		os.Exit(runCreateFail(os.Args[2:]))
 	case "drive-conc":
 		os.Exit(runDriveConc(os.Args[2:]))
+	case "drive-gw":
+		os.Exit(runDriveGW(os.Args[2:]))
+	case "c05-cli":
+		os.Exit(runC05CLI(os.Args[2:]))
 	case "serve":
 		os.Exit(runServe(os.Args[2:]))
 	case "cli-worker":
